@@ -199,7 +199,10 @@ fn c17_glue_empty_frame() {
     std::mem::forget((io, s, ctx, h));
 }
 
-//@ props: C17 C02~ C01~
+// ATTEMPTED AND INTRACTABLE (unregistered): broadcast write fan-out to a two-unit map. Measured: out of memory at 36 GB;
+// "CBMC failed" after 22 min; after concretising the point tables, alone on the machine: 54.8 GB resident, died after
+// 23 min (symex alone 996 s). The fan-out clause of C17 is NOT decided; seeded change C17-1 is missed.
+//@ props: ZZ
 //@ tier: thorough
 //@ peer: yes
 //@ timeout: 7200
